@@ -182,11 +182,15 @@ def run(ctx):
             if isinstance(s, ast.Assign) and isinstance(s.targets[0], ast.Name) and s.targets[0].id == src_name:
                 d = s
         if src_name is None or d is None:
-            raise AnalysisError('construct not understood: TSTEP handler of ioapi_base.sliceDimensions')
-        gt = [c for c in walk_expr(d.value) if isinstance(c, ast.Call) and isinstance(c.func, ast.Attribute) and c.func.attr == 'getTimes']
-        sel = [x for x in walk_expr(d.value) if isinstance(x, ast.Subscript) and isinstance(x.slice, ast.Subscript)
-               and isinstance(x.slice.value, ast.Name) and x.slice.value.id in ('kwds', 'dimslices') and const_str(x.slice.slice) == 'TSTEP']
-        if gt and isinstance(gt[0].func.value, ast.Name) and gt[0].func.value.id == 'self' and sel \
+            ctx.undec('R-TIMESRC', 'SDATE/STIME source', where, 'no SDATE store formatted from a times array (see R-GEOHANDLERS)')
+            gt, sel = [], []
+        else:
+          gt = [c for c in walk_expr(d.value) if isinstance(c, ast.Call) and isinstance(c.func, ast.Attribute) and c.func.attr == 'getTimes']
+          sel = [x for x in walk_expr(d.value) if isinstance(x, ast.Subscript) and isinstance(x.slice, ast.Subscript)
+                 and isinstance(x.slice.value, ast.Name) and x.slice.value.id in ('kwds', 'dimslices') and const_str(x.slice.slice) == 'TSTEP']
+        if src_name is None or d is None:
+            pass
+        elif gt and isinstance(gt[0].func.value, ast.Name) and gt[0].func.value.id == 'self' and sel \
                 and sel[0].value is gt[0]:
             ctx.ok('R-TIMESRC', 'SDATE/STIME source', where, "%s = self.getTimes()[kwds['TSTEP']]" % src_name)
         elif gt and isinstance(gt[0].func.value, ast.Name) and gt[0].func.value.id != 'self':
